@@ -269,7 +269,11 @@ def wide_data_frame_to_triangle(
             # coerce values types
             for field, vals in values.items():
                 if isinstance(vals, list) and len(vals) > 1:
-                    values[field] = np.array(vals)
+                    # a field that is missing in every scenario row is absent, not an
+                    # array of Nones (mirrors the scalar case below)
+                    values[field] = (
+                        None if all(v is None for v in vals) else np.array(vals)
+                    )
                 if isinstance(vals, list) and len(vals) == 1:
                     values[field] = vals[0]
             values = tlz.valfilter(lambda val: val is not None, values)
